@@ -52,6 +52,7 @@ type Frame struct {
 	panicking bool
 	panicVal  *GoPanic
 	loopCnt   map[*ssa.BasicBlock]int
+	phiOverride []Value
 }
 
 type Interp struct {
@@ -82,6 +83,10 @@ type Interp struct {
 	noFork    int
 	params    map[string]int64
 	eng2      *Explorer
+	spec      int
+	merges    int
+	curFn     *ssa.Function
+	assumed   map[*Term]bool
 	pendKeys  []pendKey
 }
 
@@ -285,7 +290,9 @@ func (in *Interp) callSSA(caller *Frame, fn *ssa.Function, args []Value, env []V
 	if in.depth > 400 {
 		panic(&pathEnd{kind: "budget", msg: "call depth exceeded in " + fn.String()})
 	}
-	defer func() { in.depth-- }()
+	savedFn := in.curFn
+	in.curFn = fn
+	defer func() { in.depth--; in.curFn = savedFn }()
 	if in.funcsSeen != nil {
 		in.funcsSeen[fn] = true
 	}
@@ -357,7 +364,12 @@ func (in *Interp) runBody(fr *Frame) {
 			}
 			nphi++
 		}
-		if nphi > 0 {
+		if nphi > 0 && fr.phiOverride != nil {
+			for k := 0; k < nphi; k++ {
+				fr.set(blk.Instrs[k].(*ssa.Phi), fr.phiOverride[k])
+			}
+			fr.phiOverride = nil
+		} else if nphi > 0 {
 			tmp := make([]Value, nphi)
 			for k := 0; k < nphi; k++ {
 				phi := blk.Instrs[k].(*ssa.Phi)
@@ -463,6 +475,9 @@ const (
 )
 
 func (in *Interp) goPanicRuntime(msg string) {
+	if in.spec > 0 {
+		panic(specAbort{})
+	}
 	var t types.Type = types.Typ[types.String]
 	if in.eng.runtimeErrType != nil {
 		t = in.eng.runtimeErrType
@@ -558,6 +573,9 @@ func (in *Interp) visit(fr *Frame, instr ssa.Instruction) continuation {
 
 	case *ssa.If:
 		c := fr.get(ins.Cond).(*Term)
+		if !c.konst && in.noFork == 0 && !in.eng.noMerge && in.tryMerge(fr, ins, c) {
+			return kJump
+		}
 		succ := 1
 		if in.decide(c) {
 			succ = 0
